@@ -41,7 +41,7 @@ enum { API_F32=0, API_S16, API_S24, API_N };
 static const char *const api_name[API_N]={"float","int16","int24"};
 static const int RATES[5]={8000,12000,16000,24000,48000};
 
-static mc_ctr *c_states,*c_trans,*c_eval,*c_dn,*c_streams,*c_packets,*c_pairs,*c_ident,*c_qcomp,*c_qdef,*c_advf,*c_adv16,*c_adv24,*c_x16,*c_rfc_n,*c_rfc_def,*c_rfc_below,*c_audio_ms,*c_dtxpk,*c_fallback,*c_lowq;
+static mc_ctr *c_states,*c_trans,*c_eval,*c_dn,*c_streams,*c_packets,*c_pairs,*c_ident,*c_qcomp,*c_qdef,*c_advf,*c_adv16,*c_adv24,*c_x16,*c_rfc_n,*c_rfc_def,*c_rfc_below,*c_audio_ms,*c_dtxpk,*c_fallback,*c_lowq,*c_f6rep,*c_huge;
 static mc_set *S_states,*S_classes,*S_toc,*S_trans,*S_codes;
 static int opt_fam, opt_rfcproc, opt_apis;
 
@@ -142,8 +142,13 @@ static void run_config(ictx *I,int ri,int ch){
      for(a=0;a<API_N;a++){
         oc_spec Ys; int haveY=0, ident, skipq; float Q=100; double er=0;
         if(!(opt_apis&(1<<a))) continue;
-        if(a==API_F32){ to16_f(y,tf,n); to16_f(x,rf,n); } else if(a==API_S16){ to16_s(y,t16,n); to16_s(x,r16,n); } else { to16_w(y,t24,n); to16_w(x,r24,n); }
+        if(a==API_F32){ to16_f(y,tf,n); to16_f(x,rf,n); } else if(a==API_S16){ to16_s(y,t16,n); to16_s(x,r16,n); } else { long i4; to16_w(y,t24,n); to16_w(x,r24,n);
+           /* F6 (fixed in /repo, present in the frozen sources): the frozen opus_decode24 converts with an unclamped float2int(x*2^23), which wraps to INT_MIN
+              once |x| >= 256 full scales. Where the frozen float-API output of the same stream / rate / channels says so, the wrapped reference sample is
+              replaced by its saturated value, so that the repaired conversion of the tree is not reported as a deviation. Counted. */
+           for(i4=0;i4<n;i4++) if(fabsf(rf[i4])>=256.f){ x[i4]=rf[i4]>0?32767.f:-32768.f; MC_INC(c_f6rep); } }
         ident=!memcmp(x,y,sizeof(float)*n);
+        if (a==API_F32){ long i5; float mx=0; for(i5=0;i5<n;i5++) if(fabsf(rf[i5])>mx) mx=fabsf(rf[i5]); if(mx>=256.f && MC_INC(c_huge)<8) mc_info("observation (tree and frozen reference alike): decoded output reaches %.0f x full scale in [%s] at %d Hz x %d ch",mx,I->name,rate,ch); }
         skipq=0; (void)overdriven;
         mc_set_add(S_states,mc_mix(mc_mix(mc_cur_item(),ri*2+ch),a+77));
         if (nf>0 && !skipq){
@@ -246,7 +251,7 @@ int main(int argc,char **argv){
    c_advf=mc_counter("advisory_maxabs_vs_same_arith_float_api_x2p24"); c_adv16=mc_counter("advisory_maxabs_vs_same_arith_int16"); c_adv24=mc_counter("advisory_maxabs_vs_same_arith_int24");
    c_x16=mc_counter("advisory_maxabs_vs_frozen_float_int16");
    c_rfc_n=mc_counter("advisory_rfc_procedure_comparisons"); c_rfc_def=mc_counter("advisory_rfc_procedure_worst_100_minus_Q_x100"); c_rfc_below=mc_counter("advisory_rfc_procedure_Q_below_0");
-   c_lowq=mc_counter("pcm_comparisons_with_Q_below_50");
+   c_lowq=mc_counter("pcm_comparisons_with_Q_below_50"); c_f6rep=mc_counter("int24_reference_wrap_samples_repaired_F6"); c_huge=mc_counter("streams_x_configs_reference_above_256_full_scale");
    c_dtxpk=mc_counter("empty_packets_le2_bytes"); c_fallback=mc_counter("fixed_held_to_frozen_fixed_ref_builds_disagree");
    { static const char *const pc[2]={"silk","hybrid"}, *const dt[4]={"2p5ms","5ms","10ms","20ms"}, *const df[4]={"10ms","20ms","40ms","60ms"}; int i,j; char nm[48];
      for(i=0;i<2;i++) for(j=0;j<4;j++){ snprintf(nm,48,"nored_%s_to_celt_first_%s",pc[i],dt[j]); c_nored_to[i][j]=mc_counter(nm); }
